@@ -94,3 +94,16 @@ func (c *Coordinator) VerifDelayCompletions(d time.Duration) {
 		p.recorder = &verifSlowRecorder{historyRecorder: p.recorder, d: d}
 	}
 }
+
+// VerifLockHistory / VerifUnlockHistory hold the history mutex, as the
+// recorders of other processes or SaveAsJepsenLog do; VerifEventsLocked reads
+// the history while the caller holds it.
+func (c *Coordinator) VerifLockHistory()   { c.mu.Lock() }
+func (c *Coordinator) VerifUnlockHistory() { c.mu.Unlock() }
+func (c *Coordinator) VerifEventsLocked() []VerifEvent {
+	r := make([]VerifEvent, 0, len(c.events))
+	for _, e := range c.events {
+		r = append(r, VerifEvent{Type: e.eventType, Result: e.eventResult, ID: e.id, Value: e.value})
+	}
+	return r
+}
